@@ -174,10 +174,15 @@ func c12Callers(sc *Scenario) *Outcome {
 	r := prng.New(uint64(sc.Int("oseed", 1)), "callers")
 	nc, nops := sc.Int("clients", 2), sc.Int("ops", 3)
 	env := &callerEnv{out: &demux{bufs: map[uint64]*bytes.Buffer{}}, log: &demux{bufs: map[uint64]*bytes.Buffer{}}}
-	for i := 0; i < 4; i++ {
+	for i := 0; i < 2; i++ {
 		s, _, _ := genInput(r, prng.Pick(r, []string{"valid", "valid", "syntax-late", "many-errors"}), "quick")
 		env.srcs = append(env.srcs, s)
 	}
+	// larger programs too: operands beyond the 1-byte varint range (more than 240 constants,
+	// locals, POPN counts), long strings, many blocks - whatever a parser might keep a scratch for
+	env.srcs = append(env.srcs,
+		gen.LimitProgram(r, prng.Pick(r, []string{"manyconsts", "manyblocks", "hugestring", "hugeident"}), false),
+		manyLocals(r, gen.Cfg{}).Src)
 	env.orderKind = prng.Pick(r, []string{"ab", "inner", "mism", "tag", "ab-slice"})
 	env.orderSrc = []byte(orderSource(r, env.orderKind))
 	// the shared program: accepted, prints, defines blocks, binds
